@@ -39,6 +39,13 @@ class Acc:
 
     def sample(self, s):
         if len(self.samples) < 6:
+            p = core.CUR
+            if p is not None and isinstance(s, dict) and "path_condition" not in s:
+                try:
+                    pc = [str(a).replace("\n", " ") for a in p.solver.assertions()]
+                    s = dict(s, path_condition=" AND ".join(pc)[:500] or "true", decisions=len(p.trace))
+                except Exception:
+                    pass
             self.samples.append(s)
 
     def candidate(self, **kw):
